@@ -1,0 +1,11 @@
+//go:build !go1.20
+
+package decorator
+
+import (
+	"go/ast"
+	"go/token"
+)
+
+// setFileExtent does nothing before go1.20: ast.File has no FileStart / FileEnd fields.
+func setFileExtent(f *ast.File, start, end token.Pos) {}
